@@ -274,6 +274,15 @@ GROUPS = {
         nontrivial='histories of at least three operations with a resolve request',
         functions=['RemotePathState::{new, insert_open_path, abandoned_path, insert_multiple, resolve_remote, resolve_requests_is_empty, address_lookup_finished, is_empty, emit_pending_resolve_requests, prune_paths}', 'prune_non_relay_paths'],
     ),
+    # second line behind the Verus unit lookup_stream
+    'lookup_stream_bx': dict(
+        unit='lookup_stream.rs', props=['C29'],
+        bounds=dict(quick=['3', '0'], thorough=['4', '0']),
+        space='no service, one service, and every pair of services, each service either not resolving at all or producing a script of at most {0} events from item / error / '
+              'a pending poll; the stream polled until it ends and twice more',
+        nontrivial='configurations with two services',
+        functions=['AddressLookupServices::{add_boxed, resolve}', 'AddressLookupStream::{empty, new, poll_next}'],
+    ),
     # second line behind the Verus unit builder_bind
     'builder_bind_bx': dict(
         unit='builder_bind.rs', props=['C20'],
